@@ -669,6 +669,7 @@ func c16Custom(t *testing.T, sc *world.Scenario, out *Outcome) {
 	out.SimMs = s.SimTime().Milliseconds()
 	out.Hash = s.Hash()
 	out.Hazards = s.Hazards
+	reportLockLeaks("C16", w, out)
 	out.Ops = len(sc.Clients[0].Ops)
 	out.SiteHits = s.SiteHits
 	out.StateHash = stateHash(w)
